@@ -82,14 +82,18 @@ fn run_case<T: Elem>(case: u64, args: &Args, ev: &mut Ev, log: &mut EventLog) {
             kind.push(3);
         }
     }
-    if aliased {
-        // the diagonal qx == qy (bit-identical), inside both ranges
+    {
+        // the diagonal qx == qy (bit-identical), where the two ranges overlap
+        let lo = if x[0] > y[0] { x[0] } else { y[0] };
         let hi = if x[nx - 1] < y[ny - 1] { x[nx - 1] } else { y[ny - 1] };
-        for _ in 0..10 {
-            let q = rand_in(&mut rng, x[0], hi);
-            qx.push(q);
-            qy.push(q);
-            kind.push(3);
+        if lo < hi {
+            for _ in 0..10 {
+                let q = rand_in(&mut rng, lo, hi);
+                qx.push(q);
+                qy.push(q);
+                kind.push(3);
+            }
+            ev.add("diagonal_queries", 10);
         }
     }
 
